@@ -1,7 +1,7 @@
 /-
   C13 model driver. Line protocol (S-expressions, one per line):
 
-    (schema (schema Q M (kind name (req…) ((f ty (req…) ((a ty)…))…) (ifaces…) (members…) (values…) ((k ty)…))…))
+    (schema (schema Q M Sub (kind name (req…) ((f ty (req…) ((a ty)…))…) (ifaces…) (members…) (values…) ((k ty)…))…))
         → (accepted true) | (accepted false)          -- sets the current schema
     (erase (features…))   → (schema …) of `erase S F`
     (view (features…))    → (view (types …) (query Q) (mutation M|-) (type N …)… (lk N …)… (gf T f …)… (sp P T b)…)
@@ -74,9 +74,10 @@ def parseType : Sexp → Option TypeDef
   | _ => none
 
 def parseSchema : Sexp → Option Schema
-  | .list (.atom "schema" :: .atom q :: .atom m :: ts) => do
+  | .list (.atom "schema" :: .atom q :: .atom m :: .atom sub :: ts) => do
     let types ← ts.mapM parseType
-    pure { types := types, query := q, mutation := if m == "" then none else some m }
+    pure { types := types, query := q, mutation := if m == "" then none else some m,
+           subscription := if sub == "" then none else some sub }
   | _ => none
 
 def kindStr : Kind → String
@@ -91,7 +92,7 @@ def strsSexp (xs : List String) : Sexp := .list (xs.map Sexp.str)
 def argsSexp (as : List Arg) : Sexp := .list (as.map fun a => .list [Sexp.str a.name, Sexp.str a.ty.str])
 
 def schemaSexp (S : Schema) : Sexp :=
-  .list (Sexp.atom "schema" :: Sexp.str S.query :: Sexp.str (S.mutation.getD "") ::
+  .list (Sexp.atom "schema" :: Sexp.str S.query :: Sexp.str (S.mutation.getD "") :: Sexp.str (S.subscription.getD "") ::
     S.types.map fun t =>
       .list [Sexp.str (kindStr t.kind), Sexp.str t.name, strsSexp t.req,
         .list (t.fields.map fun f => .list [Sexp.str f.name, Sexp.str f.ty.str, strsSexp f.req, argsSexp f.args]),
@@ -144,13 +145,14 @@ def viewSexp (S : Schema) (v : View) : Sexp :=
   .list ([Sexp.atom "view",
           .list (Sexp.atom "types" :: v.typesListing.map Sexp.str),
           .list [Sexp.atom "query", Sexp.str v.queryType],
-          .list [Sexp.atom "mutation", Sexp.str (v.mutationType.getD "-")]]
+          .list [Sexp.atom "mutation", Sexp.str (v.mutationType.getD "-")],
+          .list [Sexp.atom "subscription", Sexp.str (v.subscriptionType.getD "-")]]
          ++ typeEntries ++ lkEntries ++ gfEntries ++ spEntries ++ rcEntries)
 
 def featsOf (xs : List String) : Feats := fun s => xs.contains s
 
 structure St where
-  schema : Schema := { types := [], query := "", mutation := none }
+  schema : Schema := { types := [], query := "", mutation := none, subscription := none }
 
 /-- The (schema, features) a request is evaluated against: `full` = (S, F), `erased` = (erase S F, ⊤). -/
 def pick (S : Schema) (F : Feats) (which : String) : Schema × Feats :=
